@@ -6,8 +6,8 @@ import json, os, shutil, subprocess, sys
 HERE = os.path.dirname(os.path.abspath(__file__))
 VERIF = os.path.dirname(HERE)
 REPO = os.environ.get('SYLT_REPO', '/repo')
-FAMILIES = {'C13': ['prec'], 'C03': ['ops', 'lits', 'shape', 'deferred', 'rets', 'void', 'generics'], 'C04': ['pure'], 'C05': ['shape', 'case', 'blob', 'lits', 'start'], 'C09': ['scope'],
-            'C02': ['scope', 'deferred', 'ops', 'lits', 'rets'], 'C07': ['nopanic', 'scope'], 'C14': ['sugar', 'prec'], 'C11': ['order']}
+FAMILIES = {'C13': ['prec'], 'C03': ['lits', 'shape', 'deferred', 'rets', 'void', 'generics', 'ops'], 'C04': ['pure'], 'C05': ['shape', 'case', 'blob', 'lits', 'start'], 'C09': ['scope'],
+            'C02': ['scope', 'deferred', 'lits', 'rets', 'ops'], 'C07': ['nopanic', 'scope'], 'C14': ['sugar', 'prec'], 'C11': ['order']}
 
 def build():
     bdir = os.path.join(VERIF, '.cache', 'replay-build')
